@@ -36,19 +36,62 @@ def collector_shape(ctx):
         [(s["file"], s["func"]) for s in rep["sites"] if s["call"].endswith(".Add")], rep["launched"]))
 
 
+def build_cli(ctx):
+    """Builds the command-line program of the tree under test (go build ./cmd/srsim, output
+    harness/bin/srsim) for the `clipool` component; same hook as in tools/props.d/C15.py."""
+    M = _sys.modules["__main__"]
+    binp = _os.path.join(M.HARNESS, "bin", "srsim")
+    env = dict(M.ENV, GOFLAGS="-mod=readonly")
+    with M.Lock("go"):
+        try:
+            _os.remove(binp)
+        except OSError:
+            pass
+        rc, out = M.sh(["go", "build", "-buildvcs=false", "-o", binp, "./cmd/srsim"], cwd=M.REPO, timeout=1800, env=env)
+    if rc != 0 or not _os.path.exists(binp):
+        raise M.Violation("build", "the command-line program (go build ./cmd/srsim) does not build", out[-4000:], True)
+    M.ENV["CORR_SRSIM_BIN"] = binp
+    M.ENV.setdefault("CORR_CASE_TIMEOUT_S", "300")
+    ctx.notes.append("clipool: srsim built from %s (%d bytes)" % (M.REPO, _os.path.getsize(binp)))
+
+
+def pools_skipped(ctx):
+    M = _sys.modules["__main__"]
+    for comp in ("clipool", "srvpool"):
+        k = ctx.corr.get(comp, {}).get("op_kinds", {})
+        cases, sk = k.get("cases", 0), k.get("reference_failed", 0)
+        ctx.notes.append("%s: %d cases, %d without a reference (skipped)" % (comp, cases, sk))
+        if cases == 0 or sk * 5 > cases:
+            raise M.Violation("search", "%d of %d generated %s runs have no reference" % (sk, cases, comp),
+                              "more than 20% of the generated configurations fail when their jobs are run alone", True)
+
+
 CONFIG = {
     "id": "C19",
-    "coq_targets": ["Props/C19.v", "Model/AggCheck.v"],
+    "coq_targets": ["Props/C19.v", "Model/AggCheck.v", "Model/CliPoolCheck.v", "Model/SrvPoolCheck.v"],
     "prop_files": ["Props/C19.v"],
     "gen": [],
     "extra_bins": ["aggsites"],
-    "pre": [collector_shape],
+    "pre": [collector_shape, build_cli],
+    "post": [pools_skipped],
     "components": [{
         "name": "agg", "modules": ["Model.Agg", "Model.AggCheck"],
         "check": "check_case", "monitor": "monitor_case", "model_out": "model_out",
         "case_type": "case",
         "ops_path": [3],            # the batch of iteration results (shrunk result by result)
         "n_quick": 320, "n_thorough": 12000, "shard": 40,
+    }, {
+        # the REAL collector loops: cmd/srsim/execute.go (binary built from the tree) and pkg/servermode/pool.go
+        # (in process, incl. its intermediate flushes); components shared with C15 (tools/props.d/C15.py)
+        "name": "clipool", "modules": ["Base.GlobalTypes", "Model.RunSpec", "Model.CliPoolCheck"],
+        "check": "check_case", "monitor": "monitor_case", "model_out": "model_out",
+        "case_type": "case", "ops_path": None, "mismatch_is_violation": True,
+        "n_quick": 6, "n_thorough": 100, "shard": 6,
+    }, {
+        "name": "srvpool", "modules": ["Base.GlobalTypes", "Model.RunSpec", "Model.CliPoolCheck", "Model.SrvPoolCheck"],
+        "check": "check_case", "monitor": "monitor_case", "model_out": "model_out",
+        "case_type": "case", "ops_path": None, "mismatch_is_violation": True,
+        "n_quick": 12, "n_thorough": 200, "shard": 6,
     }],
     "rule": "a case is one batch of model.IterationResult values (0, 1, 2-6 identical, 2-6 all-zero, 2-12 or 13-40 "
             "results; amounts drawn from a pool of 1-4 values per case out of zero / equal / adjacent floats / tiny / "
@@ -59,7 +102,13 @@ CONFIG = {
             "goroutines of the shape of cmd/srsim/execute.go whose observed arrival order is part of the observation; "
             "every field of every flushed model.Statistics is compared bit for bit with the binary64 model run on the "
             "same arrival order, once when flushed and again at the end of the run; generated from one splitmix64 "
-            "state; a case is non-trivial when distinct as an input term",
+            "state; a case is non-trivial when distinct as an input term. clipool / srvpool: generated run "
+            "descriptions (1-4 registered characters, 8-24 iterations, 1-8 workers, flush interval 0-6, "
+            "settings.iterations absent / equal / smaller / larger than the requested count) through the real "
+            "collectors of cmd/srsim/execute.go (binary) and pkg/servermode/pool.go (in process); final statistics "
+            "against those of the jobs run alone, statistic by statistic (exact; mean / SD up to 1e-9), every "
+            "progress report of the server pool: count monotone, at most the request, equal to the sum of the "
+            "damage-per-cycle histogram",
     "trusted": [
         "go-moremath stats.StreamStats.Add/Mean/StdDev and stats.Sample.Sort/Bounds/Mean/StdDev/Quantile (R8) are "
         "third-party code: transcribed by hand into Model/Agg.v and corresponded on every case, not translated",
@@ -75,9 +124,13 @@ CONFIG = {
         "one-collector shape of the real pools: checked structurally on every run by harness/cmd/aggsites (go/ast): in "
         "cmd/srsim/execute.go and pkg/servermode/pool.go the aggregators' Add / Flush are called from one function "
         "each, outside every goroutine body and outside every function started with `go`",
-        "the worker pool of the harness is a copy of the shape of cmd/srsim/execute.go / pkg/servermode/pool.go "
-        "(unbuffered channels, one collector goroutine calling Add): the real pools run real simulations from a "
-        "config and cannot be fed chosen iteration results; StreamStats.Total / meanOfSquares and uint32 wrap of "
+        "the worker pool of the agg component is a copy of the shape of cmd/srsim/execute.go / pkg/servermode/pool.go "
+        "(unbuffered channels, one collector goroutine calling Add) fed with chosen iteration results; the REAL "
+        "pools run real simulations from a config: components clipool (the srsim binary built from the tree under "
+        "test, 1 and 1-8 workers) and srvpool (the HTTP server mode in process: workerpool.run with its flush "
+        "interval, every progress report and the final one) compare what the real collectors report with the "
+        "statistics of the multiset of results of the jobs run alone (seeds reproduced by the harness; see "
+        "tools/props.d/C15.py for what that trusts); StreamStats.Total / meanOfSquares and uint32 wrap of "
         "histogram counts are not reported / not modelled",
     ],
     "assumptions": [
